@@ -60,47 +60,48 @@ Qed.
 (* ------------------------------------------------------------------------------------------------ *)
 (* NewResultSpecs: every extracted result info is covered by the merged specs *)
 
-Lemma contains_fold_app_l : forall l l' c, contains_fold l c = true -> contains_fold (l ++ l') c = true.
-Proof. intros l l' c H. unfold contains_fold in *. rewrite existsb_app. rewrite H. reflexivity. Qed.
+Lemma contains_exact_app_l : forall l l' c, contains_exact l c = true -> contains_exact (l ++ l') c = true.
+Proof. intros l l' c H. unfold contains_exact in *. rewrite existsb_app. rewrite H. reflexivity. Qed.
 
-Lemma contains_fold_self : forall l c, contains_fold (l ++ [c]) c = true.
+Lemma contains_exact_self : forall l c, contains_exact (l ++ [c]) c = true.
 Proof.
-  intros l c. unfold contains_fold. rewrite existsb_app. cbn [existsb]. rewrite eq_fold_refl.
+  intros l c. unfold contains_exact. rewrite existsb_app. cbn [existsb]. rewrite text_eqb_refl.
   rewrite orb_true_r. reflexivity.
 Qed.
 
-Lemma contains_fold_In : forall l c, In c l -> contains_fold l c = true.
+Lemma contains_exact_In : forall l c, contains_exact l c = true <-> In c l.
 Proof.
-  intros l c H. unfold contains_fold. apply existsb_exists. exists c. split; [exact H | apply eq_fold_refl].
+  intros l c. unfold contains_exact. split; intro H.
+  - apply existsb_text_In. exact H.
+  - apply existsb_exists. exists c. split; [exact H | apply text_eqb_refl].
 Qed.
 
-Lemma merge_cats_keeps : forall new ex c, contains_fold ex c = true -> contains_fold (merge_cats ex new) c = true.
+Lemma merge_cats_keeps : forall new ex c, contains_exact ex c = true -> contains_exact (merge_cats ex new) c = true.
 Proof.
   induction new as [|d new IH]; intros ex c H; cbn [merge_cats]; [exact H|].
-  apply IH. destruct (contains_fold ex d); [exact H | apply contains_fold_app_l; exact H].
+  apply IH. destruct (contains_exact ex d); [exact H | apply contains_exact_app_l; exact H].
 Qed.
 
-Lemma merge_cats_adds : forall new ex c, In c new -> contains_fold (merge_cats ex new) c = true.
+Lemma merge_cats_adds : forall new ex c, In c new -> contains_exact (merge_cats ex new) c = true.
 Proof.
   induction new as [|d new IH]; intros ex c H; [destruct H|].
   cbn [merge_cats]. destruct H as [H|H].
-  - subst d. apply merge_cats_keeps. destruct (contains_fold ex c) eqn:E; [exact E | apply contains_fold_self].
+  - subst d. apply merge_cats_keeps. destruct (contains_exact ex c) eqn:E; [exact E | apply contains_exact_self].
   - apply IH. exact H.
 Qed.
 
-(* the specs cover info [i]: same key, and every category of [i] is listed (up to the case folding by which
-   NewResultSpecs merges) *)
+(* the specs cover info [i]: same key, and every category of [i] is listed, as the very string *)
 Definition covers (specs : list result_spec) (i : result_info) : Prop :=
-  exists s, In s specs /\ rs_key s = ri_key i /\ forall c, In c (ri_cats i) -> contains_fold (rs_cats s) c = true.
+  exists s, In s specs /\ rs_key s = ri_key i /\ forall c, In c (ri_cats i) -> In c (rs_cats s).
 
 Lemma merge_into_covers_new : forall specs nid i, covers (merge_into specs nid i) i.
 Proof.
   induction specs as [|s rest IH]; intros nid i; cbn [merge_into].
   - eexists. split; [left; reflexivity|]. cbn [rs_key rs_cats]. split; [reflexivity|].
-    intros c Hc. apply contains_fold_In. exact Hc.
+    intros c Hc. exact Hc.
   - destruct (text_eqb (rs_key s) (ri_key i)) eqn:E.
     + exists (merge_spec s nid i). split; [left; reflexivity|]. unfold merge_spec; cbn [rs_key rs_cats].
-      split; [apply text_eqb_eq; exact E|]. intros c Hc. apply merge_cats_adds. exact Hc.
+      split; [apply text_eqb_eq; exact E|]. intros c Hc. apply contains_exact_In. apply merge_cats_adds. exact Hc.
     + destruct (IH nid i) as [s0 [Hin H0]]. exists s0. split; [right; exact Hin | exact H0].
 Qed.
 
@@ -110,7 +111,7 @@ Proof.
   cbn [merge_into]. destruct (text_eqb (rs_key s) (ri_key i)) eqn:E.
   - destruct Hin as [Hin|Hin].
     + subst s0. exists (merge_spec s nid i). split; [left; reflexivity|]. unfold merge_spec; cbn [rs_key rs_cats].
-      split; [exact Hk|]. intros c Hcin. apply merge_cats_keeps. apply Hc. exact Hcin.
+      split; [exact Hk|]. intros c Hcin. apply contains_exact_In. apply merge_cats_keeps. apply contains_exact_In. apply Hc. exact Hcin.
     + exists s0. split; [right; exact Hin|]. split; assumption.
   - destruct Hin as [Hin|Hin].
     + subst s0. exists s. split; [left; reflexivity|]. split; assumption.
@@ -359,7 +360,7 @@ Qed.
 
 Definition result_covered (f : flow) (nc : text * text) : Prop :=
   exists s, In s (inspect_results f) /\ rs_key s = snakify (fst nc)
-            /\ (snd nc = [] \/ contains_fold (rs_cats s) (snd nc) = true).
+            /\ (snd nc = [] \/ In (snd nc) (rs_cats s)).
 
 (* a saved (name, category) that is exactly F16: saved by an open_ticket action of the flow under its result_name *)
 Definition saved_by_open_ticket (f : flow) (nc : text * text) : Prop :=
@@ -472,7 +473,8 @@ Proof.
   intros [s [Hs _]]. vm_compute in Hs. exact Hs.
 Qed.
 
-(* "among the listed ones" holds up to letter case only: NewResultSpecs merges categories with EqualFold *)
+(* "among the listed ones" is literal: two declarations of one key whose categories differ in letter case are both
+   listed (NewResultSpecs merges exact strings since the repair of the second hunt's finding) *)
 Definition fold_flow : flow :=
   {| f_id := 0; f_uuid := t "f0";
      f_nodes := [ {| n_id := 1;
@@ -480,21 +482,9 @@ Definition fold_flow : flow :=
                                     {| a_items := []; a_behav := BSetRunResult (t "x") (t "yes") |} ];
                      n_router := None; n_exits := [ {| e_id := 1; e_dest := None |} ] |} ] |}.
 
-Definition fold_trace : list ostep :=
-  [ {| os_run := 0; os_parent := None; os_flow := 0; os_node := 1; os_saved := [(t "x", t "Yes"); (t "x", t "yes")];
-       os_touched := []; os_exit := Some 1; os_resumed := false |} ].
-
-Lemma category_literally_listed_refuted :
-  exists A tr, forallb valid_flow A = true /\ no_open_ticket A = true /\ accepts [] A tr = true /\
-    exists fid nc f, In (fid, nc) (saved_results tr) /\ lookup_flow A fid = Some f /\
-      forall s, In s (inspect_results f) -> rs_key s = snakify (fst nc) -> ~ In (snd nc) (rs_cats s).
-Proof.
-  exists [fold_flow], fold_trace. split; [vm_compute; reflexivity|]. split; [vm_compute; reflexivity|].
-  split; [vm_compute; reflexivity|].
-  exists 0, (t "x", t "yes"), fold_flow. split; [right; left; reflexivity|]. split; [reflexivity|].
-  intros s Hs _ Hin. vm_compute in Hs. destruct Hs as [Hs|[]]. subst s. vm_compute in Hin.
-  destruct Hin as [Hin|[]]. discriminate Hin.
-Qed.
+Example case_variants_both_listed :
+  map rs_cats (inspect_results fold_flow) = [[t "Yes"; t "yes"]].
+Proof. vm_compute. reflexivity. Qed.
 
 (* ------------------------------------------------------------------------------------------------ *)
 (* waiting exits *)
